@@ -53,7 +53,7 @@ def acknowledgeSettings : CM (List Frame) := do
   connInput .SEND_SETTINGS
   let c ← getS
   let (changes, rs) := Settings.acknowledge c.remoteSettings
-  setS { c with remoteSettings := rs }
+  modifyS (fun c => { c with remoteSettings := rs })
   match findChange changes SettingCodes.INITIAL_WINDOW_SIZE with
   | some (old, new) =>
     match old with
@@ -76,7 +76,7 @@ def acknowledgeSettings : CM (List Frame) := do
 def localSettingsAcked : CM (List (Int × Option Int × Int)) := do
   let c ← getS
   let (changes, ls) := Settings.acknowledge c.localSettings
-  setS { c with localSettings := ls }
+  modifyS (fun c => { c with localSettings := ls })
   match findChange changes SettingCodes.INITIAL_WINDOW_SIZE with
   | some (old, new) =>
     match old with
@@ -103,9 +103,9 @@ def receiveSettingsFrame (ack : Bool) (items : List (Int × Int)) : CM FE := do
   else
     let c ← getS
     match Settings.update c.remoteSettings items with
-    | (.error e, s') => do setS { c with remoteSettings := s' }; raise e
+    | (.error e, s') => do modifyS (fun c => { c with remoteSettings := s' }); raise e
     | (.ok _, s') =>
-      setS { c with remoteSettings := s' }
+      modifyS (fun c => { c with remoteSettings := s' })
       -- RemoteSettingsChanged.from_settings(old_settings := remote_settings, new := frame.settings)
       let ev := Event.RemoteSettingsChanged (items.map fun kv => (kv.1, s'.getItem? kv.1, kv.2))
       let frames ← acknowledgeSettings
@@ -206,7 +206,7 @@ def receiveWindowUpdateFrame (sid incr : Int) : CM FE := do
     let c ← getS
     match guard_increment_window c.outWin incr with
     | .ok w => do
-      setS { c with outWin := w }
+      modifyS (fun c => { c with outWin := w })
       pure ([], [Event.WindowUpdated 0 (some incr)])
     | .error e => raise (ofPyErr e)
 
